@@ -194,7 +194,36 @@ pub fn run_validate(args: &[String]) {
             let dev = &c["dev"];
             let dkey = format!("{layout}:{dev}");
             // a usage deviation of the model's multi-cell (1) / single-cell (2) builtin is applied to every builtin of that class
-            let targets: Vec<Option<usize>> = if dev[0] == "usage" {
+            // model builtin 3 = a builtin the instance has switched off (dynamic layout only): row ratio left set, one instance claimed
+            if dev[0] == "usage" && dev[1] == 3 {
+                if layout != "dynamic" || !done_dev.insert(dkey.clone()) { } else {
+                    let dp0 = pi0.dynamic_params.clone().expect("dynamic params");
+                    type Setter = fn(&mut swiftness_air::dynamic::DynamicParams, usize);
+                    let table: Vec<(&str, usize, u64, usize, Setter)> = vec![
+                        ("pedersen", 3, 3, dp0.uses_pedersen_builtin, |d, r| d.pedersen_builtin_row_ratio = r), ("range_check", 4, 1, dp0.uses_range_check_builtin, |d, r| d.range_check_builtin_row_ratio = r),
+                        ("ecdsa", 5, 2, dp0.uses_ecdsa_builtin, |d, r| d.ecdsa_builtin_row_ratio = r), ("bitwise", 6, 5, dp0.uses_bitwise_builtin, |d, r| d.bitwise_row_ratio = r),
+                        ("ec_op", 7, 7, dp0.uses_ec_op_builtin, |d, r| d.ec_op_builtin_row_ratio = r), ("keccak", 8, 16, dp0.uses_keccak_builtin, |d, r| d.keccak_row_ratio = r),
+                        ("poseidon", 9, 6, dp0.uses_poseidon_builtin, |d, r| d.poseidon_row_ratio = r), ("range_check96", 10, 1, dp0.uses_range_check96_builtin, |d, r| d.range_check96_builtin_row_ratio = r),
+                        ("add_mod", 11, 7, dp0.uses_add_mod_builtin, |d, r| d.add_mod_row_ratio = r), ("mul_mod", 12, 7, dp0.uses_mul_mod_builtin, |d, r| d.mul_mod_row_ratio = r)];
+                    for (name, seg, cells, uses, set_ratio) in table {
+                        if uses != 0 { continue; }
+                        for ratio in [64usize, 1usize << lt0.min(40)] {
+                            let mut pi = clone_pi(pi0);
+                            let mut dp = dp0.clone();
+                            if dev[2] == "1inst" { set_ratio(&mut dp, ratio); pi.segments[seg].stop_ptr = pi.segments[seg].begin_addr + Felt::from(cells); }
+                            pi.dynamic_params = Some(dp);
+                            n += 1;
+                            let doms = StarkDomains::new(Felt::from(lt0), lc);
+                            let expect = c["valid"].as_bool().unwrap();
+                            match real::dispatch!(layout.as_str(), validate_g, &pi, &doms) {
+                                Ok(got) => if got != expect { bad += 1; out.line(&json!({"ok": false, "kind": "validate", "layout": layout, "dev": dev, "builtin_segment": seg, "why": format!("ValidPI = {expect} but validate_public_input accepted = {got}: builtin {name} is switched off (row ratio set to {ratio}), usage {}", dev[2])})); },
+                                Err(p) => { panics += 1; if expect { bad += 1; } out.line(&json!({"ok": false, "kind": "panic", "layout": layout, "dev": dev, "where": p, "why": "validate_public_input panicked"})); }
+                            }
+                        }
+                    }
+                }
+            }
+            let targets: Vec<Option<usize>> = if dev[0] == "usage" && dev[1] == 3 { vec![] } else if dev[0] == "usage" {
                 builtins.iter().enumerate().filter(|(_, b)| (b.cells > 1) == (dev[1] == 1)).map(|(i, _)| Some(i)).collect()
             } else { vec![None] };
             if done_dev.insert(dkey.clone()) { for target in targets {
